@@ -447,7 +447,7 @@ def run(ctx):
     cells1 = ["A", "B", "C", "D", "E", "H", "S"] if ctx.quick else ["A", "B", "C", "D", "E", "H", "K", "S"]
     sc1 = scene("detect32", F_PHX, cells1, [a_bounds("within")], fences_detect32() + fences_filters(full=not ctx.quick))
     t1, tp1, beh1 = cover("detect32", sc1, ctx.pick(IDS1, IDS2), [0], [-1], [2, 1], ctx.pick([50], [0, 1, 50, 2000]),
-                          rereg=ctx.pick(40, 150), timeout=2400)
+                          rereg=ctx.pick(4, 150), timeout=2400)
     variants = design_variants(ctx, where_scene_table(table), IDS2, PATS, [0, 5, 20], [-1, 5, 20], [])
 
     # ---- scene 1b (quick): two objects (PDEL, DROP, ids for MATCH) with a selection of the fences
@@ -491,7 +491,7 @@ def run(ctx):
         return scene(name, frame, ["A", "B", "C", "D", "E", "H", "K", "N", "M", "S"], areas, fs)
 
     simulate("shapesTile", shapes(F_TILE, "shapesTile"), IDS3, [0, 5, 20], [-1, 5, 20], [2, 1], ctx.pick(25, 40),
-             ctx.pick([(2000, 12), (50, 48)], [(2000, 100), (50, 300)]), rereg=ctx.pick(8, 50))
+             ctx.pick([(2000, 12), (50, 48)], [(2000, 100), (50, 300)]), rereg=ctx.pick(2, 30))
 
     if not ctx.quick:
         simulate("shapesHash", shapes(F_HASH, "shapesHash"), IDS3, [0, 5, 20], [-1, 5, 20], [2, 1], 40, [(1, 200), (50, 200)], rereg=100)
@@ -536,6 +536,8 @@ def run(ctx):
         raise common.Infra("a transport was never compared: %s" % dicts["per_transport"])
     if total["may_items_present"] == 0:
         raise common.Infra("no optional del/drop notification was ever seen")
+    if total["re_registrations"] == 0 or total["hooks_replaced_under_the_same_name"] == 0 or total["other_hooks_deleted"] == 0:
+        raise common.Infra("the hook registries were never churned (re-registration / replacement / deletion of other hooks)")
     common.write_evidence(ctx, "model_checking", {
         "states": states,
         "transitions": trans,
